@@ -1123,6 +1123,44 @@ func c14(c *core.Ctx, r *core.Report) {
 					r.OK(key, an.Pos(c, in), "divisor %s is positive on every path reaching it", an.D().Of(bo.Y))
 					return
 				}
+				// `… % len(recv.list)` in an unexported helper that every caller enters only under `len(recv.list) > 0`
+				lenField := func(v ssa.Value) *types.Var {
+					call, isCall := an.Strip(v).(*ssa.Call)
+					if !isCall || !an.IsBuiltinCall(call, "len") || len(call.Call.Args) != 1 {
+						return nil
+					}
+					f, _ := an.TerminalField(call.Call.Args[0])
+					return f
+				}
+				if lf := lenField(bo.Y); lf != nil && !token.IsExported(an.Outermost(fn).Name()) {
+					sites := an.CallSitesOf(c, an.Outermost(fn))
+					all := len(sites) > 0
+					for _, cs := range sites {
+						guarded := false
+						for _, g := range an.GuardsOf(cs.Block()) {
+							gb, isB := g.Cond.(*ssa.BinOp)
+							if !isB {
+								continue
+							}
+							kz, isK := gb.Y.(*ssa.Const)
+							if !isK || kz.Value == nil || constant.Sign(kz.Value) != 0 {
+								continue
+							}
+							if gf := lenField(gb.X); gf != nil && an.SameField(gf, lf) {
+								if (gb.Op == token.GTR && g.Polarity) || (gb.Op == token.NEQ && g.Polarity) || (gb.Op == token.EQL && !g.Polarity) || (gb.Op == token.LEQ && !g.Polarity) {
+									guarded = true
+								}
+							}
+						}
+						if !guarded {
+							all = false
+						}
+					}
+					if all {
+						r.OK(key, an.Pos(c, in), "divisor %s: every caller of %s enters it only with a non-empty list", an.D().Of(bo.Y), fn.Name())
+						return
+					}
+				}
 				r.Violation(key, an.Pos(c, in), "integer %s by %s without a non-zero guard: division by zero panics", bo.Op, an.D().Of(bo.Y))
 			})
 		}
